@@ -132,6 +132,16 @@ func (st Stage) terminal(recv *Expr) *Expr {
 			lam([]string{"l"}, MCall(MCall(l, "map", lam([]string{"e"}, mod(Bin("*", w(e), Int(2))))), "sum")),
 			lam([]string{"l"}, MCall(MCall(l, "accept", lam([]string{"e"}, Bin("=", Bin("%", e, Int(2)), Int(0)))), "top", Int(3))),
 		}))
+	case "multiUseNested":
+		// consumers that return lazy lists inside maps and lists: multiUse has to force them
+		// while the source is fed, a failing element must still make the evaluation fail
+		inner := func() *Expr { return MCall(l, "map", lam([]string{"e"}, guard(st, e, mod(Bin("*", w(e), Int(2)))))) }
+		return MCall(recv, "multiUse", Map([]string{"a", "b", "c", "n"}, []*Expr{
+			lam([]string{"l"}, Map([]string{"x"}, []*Expr{inner()})),
+			lam([]string{"l"}, Map([]string{"k", "m"}, []*Expr{Int(1), Map([]string{"x"}, []*Expr{MCall(l, "accept", lam([]string{"e"}, guard(st, e, Bin("=", Bin("%", e, Int(2)), Int(0)))))})})),
+			lam([]string{"l"}, List(Map([]string{"x"}, []*Expr{inner()}), Int(7))),
+			lam([]string{"l"}, MCall(l, "size")),
+		}))
 	case "multiUseRejected":
 		// error path: consumers that are fine, followed by an entry that multiUse rejects
 		size := lam([]string{"l"}, MCall(l, "size"))
@@ -178,7 +188,7 @@ func (sp *Spec) Expr() *Expr { return sp.Terminal.terminal(sp.ListExpr()) }
 
 var closureStages = []string{"map", "map", "accept", "combine", "combine3", "combineN", "iir", "iirCombine", "number", "compact", "cross", "merge", "fsm"}
 var plainStages = []string{"top", "skip", "plus"}
-var terminals = []string{"reduce", "mapReduce", "sum", "size", "string", "first", "last", "minMax", "visit", "order", "orderTop", "groupByInt", "multiUse", "list", "eval"}
+var terminals = []string{"reduce", "mapReduce", "sum", "size", "string", "first", "last", "minMax", "visit", "order", "orderTop", "groupByInt", "multiUse", "multiUseNested", "list", "eval"}
 var profiles = []string{"fast", "probe", "slow", "slowTo", "slowTo", "jitter"}
 
 // Config steers the generator.
